@@ -11,8 +11,18 @@ directory is the scenario's cwd (pypyr fixes config.cwd at import). Two kinds of
   file starts with a custom step module that lives NEXT TO it and records which file ran, so the
   trail shows both which file was chosen and that its sibling module was importable.
 
+* seq — a SEQUENCE of look-ups in ONE process with warm caches (lean `Resolve.runSess`): name forms
+  plain, dir/name, absolute, with '+', with '..'; parents none, dir, dir/sub, the cwd; through new
+  and re-used `Pipeline` objects (the parent changes from call to call), `Pipeline.run`,
+  `pipelinerunner.run` and a real pype step in a pipeline living in the parent directory; with
+  file-system changes, `clear_all()` and `no_cache` in between, and `py_dir` directories that do not
+  exist yet. Every look-up made when the caches were cleared since the file system last changed is
+  compared with what the same look-up yields in a cold process (the property text restated in
+  `seq_spec`); every look-up, clean or stale, is compared with the model, sys.path included.
+
 Both sides are compared on: the chosen file / the trail, the error text (searched places),
 the directories appended to sys.path. Independent monitors restate the property text in Python.
+A subprocess that does not return is an observation (judged by the monitors), not a crash.
 """
 from __future__ import annotations
 
@@ -32,7 +42,9 @@ LEAN_MODULES = ['Props.C19']
 TRUSTED = ['harness/props/c19.py (layout builder, path canonicaliser R/B, monitors)',
            'harness/impl_c19_runner.py (subprocess runner)', 'pathlib / os file-system semantics']
 ASSUMPTIONS = [
-    'directories are absolute, normalised and symlink-free (Path.resolve is the identity on them); names have no ./.. segments',
+    'directories are absolute, normalised and symlink-free (Path.resolve is the identity on them, str() of one determines it: '
+    'the model\'s pipeline-cache key keeps the component list where the code keeps the string); names have no . segments; '
+    '.. segments only in seq scenarios, where the driver\'s file-system predicate walks them like the OS',
     'the built-in location can only hold the names pypyr ships (donothing, echo, …): /repo is read-only, so '
     '"built-in exists" cases use the name donothing and nested names never exist there',
     'only the truthiness of resolveFromParent is used (a string "False" is truthy, as in get_arguments)',
@@ -119,7 +131,7 @@ def get_pipeline_definition(pipeline_name, parent):
         f.write_text(body)
 
 
-def run_subprocess(root, scenario, repo):
+def run_subprocess(root, scenario, repo, timeout=120):
     scenario = dict(scenario, repo=str(repo), lib=str(root / 'lib'))
     sf = root / 'scenario.json'
     sf.write_text(json.dumps(scenario))
@@ -128,9 +140,10 @@ def run_subprocess(root, scenario, repo):
     env = {k: v for k, v in os.environ.items() if not k.startswith('PYTHON') and not k.startswith('PYPYR')}
     try:
         p = subprocess.run([sys.executable, '-I', str(RUNNER), str(sf)], cwd=str(cwd), env=env,
-                           stdout=subprocess.PIPE, stderr=subprocess.PIPE, text=True, timeout=120)
+                           stdout=subprocess.PIPE, stderr=subprocess.PIPE, text=True, timeout=timeout)
     except subprocess.TimeoutExpired:
-        raise common.Infra('C19 runner subprocess timed out')
+        # the implementation did not return: an observation, judged by the monitors — not an infrastructure failure
+        return {'timeout': True}
     lines = [ln for ln in p.stdout.splitlines() if ln.startswith('{')]
     if p.returncode != 0 or not lines:
         raise common.Infra(f'C19 runner failed (rc={p.returncode}): {p.stderr[-1500:]}')
@@ -266,6 +279,16 @@ def run_path_chunk(chunk, repo):
               'cases': [{'files': c['files'], 'name': conc(root, c['name']), 'parent': conc(root, c['parent']),
                          'parent_form': c['parent_form']} for c in chunk]}
         out = run_subprocess(root, sc, repo)
+        if out.get('timeout'):
+            # some case of the chunk hangs: run them one by one, the hanging ones become observations
+            probe = run_subprocess(root, dict(sc, cases=[]), repo)
+            if probe.get('timeout'):
+                raise common.Infra('C19 runner does not even start within the time limit')
+            out = dict(probe, results=[])
+            for one in sc['cases']:
+                o1 = run_subprocess(root, dict(sc, cases=[one]), repo, timeout=30)
+                out['results'].append({'err': 'timeout', 'msg': 'get_pipeline_path did not return within 30 s'}
+                                      if o1.get('timeout') else o1['results'][0])
         canon = Canon(root, out['builtin'])
         base_dirs = ['/B'] + sorted({canon(dp) for dp, _, _ in os.walk(root)})
         res = []
@@ -393,6 +416,12 @@ def run_run_case(case, repo):
         build_run_tree(root, case)
         out = run_subprocess(root, {'kind': 'run', 'name': conc(root, case['hops'][0]['name']),
                                     'loader': case.get('rootLoader')}, repo)
+        if out.get('timeout'):
+            probe = run_subprocess(root, {'kind': 'paths', 'root': str(root), 'cases': []}, repo)
+            if probe.get('timeout'):
+                raise common.Infra('C19 runner does not even start within the time limit')
+            out = dict(probe, trail=None, err='timeout', msg='the run did not return within 120 s', sys_path_added=[],
+                       sys_path_dups=[])
         canon = Canon(root, out['builtin'])
         if canon(out['config_cwd']) != CWD:
             raise common.Infra(f'runner cwd is {out["config_cwd"]}')
@@ -464,6 +493,317 @@ def judge_run_case(env, res, case, files, dirs, impl):
         res.mismatch(case, m, i)
 
 
+
+# ---------------------------------------------------------------------------------------------
+# seq scenarios: SEQUENCES of look-ups in one process, caches warm
+# ---------------------------------------------------------------------------------------------
+
+SEQ_DIRS = ['L', 'L/sub', 'w', 'w/sub', 'w/pipelines', 'w/pipelines/sub', 'lib']
+SEQ_LEAVES = ['L/vx.yaml', 'L/sub/vx.yaml', 'w/vx.yaml', 'w/sub/vx.yaml', 'w/pipelines/vx.yaml', 'w/pipelines/sub/vx.yaml',
+              'L/a+b.yaml', 'w/a+b.yaml']
+SEQ_NAMES = ['vx', 'sub/vx', '/R/L/vx', '/R/L/sub/vx', 'a+b', '../vx', 'sub/../vx', '/R/L/sub/../vx', '/R/w/vx']
+SEQ_PARENTS = [None, '/R/L', '/R/L/sub', '/R/w']
+
+
+def norm_walk(path, dirs):
+    """follow '..' like the OS: the directory being left must exist; -> normalised path or None"""
+    acc = []
+    for seg in path.strip('/').split('/'):
+        if seg == '..':
+            if ('/' + '/'.join(acc) if acc else '/') not in dirs and acc:
+                return None
+            acc = acc[:-1]
+        else:
+            acc.append(seg)
+    return '/' + '/'.join(acc)
+
+
+def seq_spec(name, parent, files, dirs):
+    """The property text for one look-up: -> ({'ok': file} | {'err': …}, searched dirs | None)"""
+    def is_file(p):
+        q = norm_walk(p, dirs)
+        return q if q is not None and q in files else None
+    if name.startswith('/'):
+        q = is_file(name + '.yaml')
+        return ({'ok': q} if q else {'err': 'PipelineNotFoundError'}), None
+    searched = []
+    if parent and parent in dirs and parent != CWD:
+        searched.append(parent)
+    searched += [CWD, CWD + '/pipelines', '/B']
+    for d in searched:
+        q = is_file(f'{d}/{name}.yaml')
+        if q:
+            return {'ok': q}, searched
+    return {'err': 'PipelineNotFoundError'}, searched
+
+
+def seq_request(name, parent, via, obj=0, form='str'):
+    return {'op': 'req', 'name': name, 'parent': parent, 'via': via, 'obj': obj, 'parent_form': form}
+
+
+def seq_vias(parent, rng=None):
+    v = ['new', 'obj'] + (['pype'] if parent and parent != CWD else []) + (['runner', 'obj.run'] if parent is None else [])
+    return v
+
+
+def joined(name, parent):
+    """the first candidate of the look-up, normalised as a string (what a path-joined cache key would be)"""
+    if name.startswith('/') or not parent:
+        return os.path.normpath(name)
+    return os.path.normpath(os.path.join(parent, name))
+
+
+def seq_cases_directed(rng, quick):
+    out = []
+    reqs = [(n, p) for n in SEQ_NAMES for p in SEQ_PARENTS]
+    # A. requests whose first candidates coincide under path joining but whose (parent, name) differ: every ordered
+    #    pair (and the triples of the two largest groups), on layouts with and without the shared first candidate
+    #    (only layouts on which the two requests resolve DIFFERENTLY in a cold process can tell anything)
+    groups = {}
+    for n, p in reqs:
+        raw = n if n.startswith('/') or not p else os.path.join(p, n)
+        for j in {joined(n, p), raw}:
+            groups.setdefault(j, set()).add((n, p))
+    dirs = set(['/B', '/R'] + ['/R/' + d for d in SEQ_DIRS])
+    subsets = [list(sub) for k in range(6) for sub in itertools.combinations(SEQ_LEAVES[:6], k)]
+    layouts = [[], ['w/vx.yaml'], ['w/vx.yaml', 'w/sub/vx.yaml'], ['w/sub/vx.yaml', 'w/pipelines/vx.yaml'],
+               ['w/vx.yaml', 'w/sub/vx.yaml', 'w/pipelines/vx.yaml', 'w/pipelines/sub/vx.yaml'],
+               ['L/vx.yaml', 'w/vx.yaml', 'w/sub/vx.yaml'], ['L/sub/vx.yaml', 'w/vx.yaml'], list(SEQ_LEAVES)]
+    k = 0
+    seen = set()
+    for j, grp in sorted(groups.items()):
+        grp = sorted(grp, key=str)
+        for a in grp:
+            for b in grp:
+                if a == b or (a, b) in seen:
+                    continue
+                seen.add((a, b))
+                tell = [lay for lay in subsets
+                        if seq_spec(a[0], a[1], {'/R/' + f for f in lay}, dirs)[0] != seq_spec(b[0], b[1], {'/R/' + f for f in lay}, dirs)[0]]
+                if quick and tell:
+                    tell = [rng.choice(tell)]
+                elif len(tell) > 6:
+                    tell = rng.sample(tell, 6)
+                for lay in tell:
+                    k += 1
+                    va, vb = seq_vias(a[1]), seq_vias(b[1])
+                    ops = [{'op': 'fs', 'files': lay}, seq_request(a[0], a[1], va[k % len(va)], 0),
+                           seq_request(b[0], b[1], vb[(k // 2) % len(vb)], 1), seq_request(a[0], a[1], 'new', 2)]
+                    out.append({'kind': 'seq', 'tag': 'joined', 'noCache': False, 'ops': ops})
+    # B. ONE Pipeline object run again and again: the parent of THIS call and the files of THIS moment decide
+    for name in ('vx', 'sub/vx', '../vx'):
+        for lay in layouts:
+            for parents in (['/R/L', '/R/L/sub', None], ['/R/L/sub', '/R/L'], [None, '/R/L', '/R/w'], ['/R/L', None, '/R/L']):
+                ops = [{'op': 'fs', 'files': lay}] + [seq_request(name, p, 'obj', 7, 'path' if i % 2 else 'str')
+                                                     for i, p in enumerate(parents)]
+                out.append({'kind': 'seq', 'tag': 'reuse', 'noCache': False, 'ops': ops})
+    for via in ('obj', 'obj.run', 'new', 'runner'):
+        for first, later in ((['w/pipelines/vx.yaml'], ['w/pipelines/vx.yaml', 'w/vx.yaml']),
+                             (['w/vx.yaml', 'w/pipelines/vx.yaml'], ['w/pipelines/vx.yaml']),
+                             ([], ['w/vx.yaml']), (['w/vx.yaml'], [])):
+            for mid in ([{'op': 'clear'}], [{'op': 'noCache', 'b': True}], []):
+                r = seq_request('vx', None, via, 3)
+                ops = [{'op': 'fs', 'files': first}, r, {'op': 'fs', 'files': later}] + mid + [r, r]
+                out.append({'kind': 'seq', 'tag': 'fs-change', 'noCache': False, 'ops': ops})
+        for mid in ([{'op': 'clear'}], []):
+            r1, r2 = seq_request('vx', '/R/L', via if via in ('obj', 'new') else 'pype', 4), seq_request('vx', '/R/L/sub', 'obj', 4)
+            ops = [{'op': 'fs', 'files': ['w/vx.yaml']}, r1, r2, {'op': 'fs', 'files': ['w/vx.yaml', 'L/vx.yaml']}] + mid + [r1, r2, r1]
+            out.append({'kind': 'seq', 'tag': 'fs-change', 'noCache': False, 'ops': ops})
+    # C. a directory that is probed (as py_dir) before it exists and later holds a pipeline with its step module
+    for via in ('new', 'obj', 'runner'):
+        for probe, form in ((True, 'path'), (True, 'str'), (False, 'path')):
+            ops = [{'op': 'fs', 'files': ['w/vx.yaml']},
+                   dict(seq_request('donothing', None, via, 5), py_dir='/R/late' if probe else '/R/L', py_dir_form=form),
+                   {'op': 'fs', 'files': ['w/vx.yaml', 'late/vx.yaml']},
+                   seq_request('/R/late/vx', None, 'new', 6), seq_request('vx', '/R/late', 'new', 6)]
+            out.append({'kind': 'seq', 'tag': 'late-dir', 'noCache': False, 'ops': ops})
+    return out
+
+
+def seq_cases_pairs(rng, n_layouts, sample):
+    """all ordered pairs (then the first again) over name forms x parents on a few layouts"""
+    reqs = [(n, p) for n in SEQ_NAMES for p in SEQ_PARENTS]
+    out = []
+    lays = [['w/vx.yaml', 'w/sub/vx.yaml', 'w/a+b.yaml'], ['L/vx.yaml', 'w/pipelines/vx.yaml', 'w/pipelines/sub/vx.yaml', 'L/a+b.yaml'],
+            ['L/sub/vx.yaml', 'w/sub/vx.yaml', 'w/pipelines/vx.yaml']][:n_layouts]
+    k = 0
+    for lay in lays:
+        for a in reqs:
+            for b in reqs:
+                if a == b:
+                    continue
+                k += 1
+                va, vb = seq_vias(a[1]), seq_vias(b[1])
+                out.append({'kind': 'seq', 'tag': 'pairs', 'noCache': False,
+                            'ops': [{'op': 'fs', 'files': lay}, seq_request(a[0], a[1], va[k % len(va)], 0),
+                                    seq_request(b[0], b[1], vb[(k // 3) % len(vb)], 0), seq_request(a[0], a[1], 'obj', 0)]})
+    if sample is not None and len(out) > sample:
+        out = rng.sample(out, sample)
+    return out
+
+
+def seq_case_random(rng):
+    ops = [{'op': 'fs', 'files': [f for f in SEQ_LEAVES if rng.random() < 0.45]}]
+    for _ in range(rng.randint(3, 9)):
+        x = rng.random()
+        if x < 0.65:
+            n, p = rng.choice(SEQ_NAMES), rng.choice(SEQ_PARENTS)
+            ops.append(seq_request(n, p, rng.choice(seq_vias(p)), rng.randrange(2), rng.choice(['str', 'path'])))
+        elif x < 0.8:
+            ops.append({'op': 'fs', 'files': [f for f in SEQ_LEAVES if rng.random() < 0.45]})
+        elif x < 0.93:
+            ops.append({'op': 'clear'})
+        else:
+            ops.append({'op': 'noCache', 'b': rng.random() < 0.6})
+    return {'kind': 'seq', 'tag': 'random', 'noCache': rng.random() < 0.1, 'ops': ops}
+
+
+def run_seq_case(case, repo):
+    root = Path(tempfile.mkdtemp(prefix='c19s')).resolve()
+    try:
+        for d in SEQ_DIRS:
+            (root / d).mkdir(parents=True, exist_ok=True)
+        lib = root / 'lib'
+        (lib / 'vtrail.py').write_text('T = []\n')
+        ops = []
+        nwrap = 0
+        for op in case['ops']:
+            op = dict(op)
+            if op['op'] == 'req':
+                op['name'] = conc(root, op['name'])
+                op['parent'] = conc(root, op['parent'])
+                if op.get('py_dir'):
+                    op['py_dir'] = conc(root, op['py_dir'])
+                if op['via'] == 'pype':
+                    # a real calling pipeline in the parent directory: its pype step gets that directory as parent
+                    nwrap += 1
+                    rel = f'{case["ops"][len(ops)]["parent"][3:]}/vwrap{nwrap}.yaml'
+                    (root / rel).write_text("steps:\n  - name: pypyr.steps.pype\n    in:\n      pype:\n"
+                                            f"        name: {yaml_scalar(op['name'])}\n")
+                    op['wrapper'] = rel
+            ops.append(op)
+        out = run_subprocess(root, {'kind': 'seq', 'root': str(root), 'noCache': bool(case.get('noCache')), 'ops': ops}, repo)
+        if out.get('timeout'):
+            probe = run_subprocess(root, {'kind': 'paths', 'root': str(root), 'cases': []}, repo)
+            if probe.get('timeout'):
+                raise common.Infra('C19 runner does not even start within the time limit')
+            out = dict(probe, results=[{'ran': [], 'err': 'timeout', 'msg': 'the sequence did not return within 120 s'}])
+        canon = Canon(root, out['builtin'])
+        if canon(out['config_cwd']) != CWD:
+            raise common.Infra(f'runner cwd is {out["config_cwd"]}')
+        dirs = sorted({'/B'} | {'/R/' + d for d in SEQ_DIRS} | {'/R'})
+        impl = [{'ran': r['ran'], 'err': r['err'], 'msg': canon(r['msg']),
+                 'added': [canon(p) for p in r.get('sys_path_added', [])], 'dups': [canon(p) for p in r.get('sys_path_dups', [])]}
+                for r in out['results']]
+        return case, dirs, impl
+    finally:
+        shutil.rmtree(root, ignore_errors=True)
+
+
+def judge_seq_case(env, res, case, dirs, impl):
+    res.case(case)
+    res.count('seq:' + case.get('tag', '?'))
+    builtin_files = [f'/B/{n}.yaml' for n in BUILTIN_NAMES]
+    # the model: Resolve.runSess through the warm pipeline cache
+    mops, files = [], None
+    mdirs = list(dirs)
+    for op in case['ops']:
+        if op['op'] == 'fs':
+            fl = sorted(['/R/' + f for f in op['files']] + builtin_files)
+            mdirs = sorted(set(mdirs) | {f.rsplit('/', 1)[0] for f in fl})
+            if files is None:
+                files, dirs0 = fl, list(mdirs)
+            else:
+                mops.append(['fs', {'files': fl, 'dirs': mdirs}])
+        elif op['op'] == 'req':
+            if op.get('py_dir'):
+                mops.append(['pyDir', op['py_dir']])
+            mops.append(['req', op['obj'], op['name'], op['parent']])
+        elif op['op'] == 'clear':
+            mops.append(['clear'])
+        else:
+            mops.append(['noCache', bool(op['b'])])
+    model = env.driver.ask('resolve.session', cwd=CWD, builtin='/B', files=files, dirs=dirs0,
+                           noCache=bool(case.get('noCache')), ops=mops)['results']
+    # the monitor: the property text, look-up by look-up
+    cur, dirty, nc, k = None, False, bool(case.get('noCache')), 0
+    probed_missing = set()     # directories handed to add_sys_path (as py_dir) while they did not exist
+    for op in case['ops']:
+        if op['op'] == 'fs':
+            dirty = cur is not None
+            cur = set('/R/' + f for f in op['files']) | set(builtin_files)
+            dirs = sorted(set(dirs) | {f.rsplit('/', 1)[0] for f in cur})
+        elif op['op'] == 'clear':
+            dirty = False
+        elif op['op'] == 'noCache':
+            nc = bool(op['b'])
+        else:
+            if k >= len(impl):
+                res.violation(case, f'look-up {k} never happened: the sequence stopped after {impl[-1] if impl else None}',
+                              signature={'clause': 'resolve_first_existing', 'seq': case.get('tag')}, impl=impl)
+                break
+            obs, m = impl[k], model[k]
+            k += 1
+            name, parent = op['name'], op['parent']
+            res.count('seq:via:' + op['via'])
+            res.count('seq:name:' + ('abs' if name.startswith('/') else 'dotdot' if '..' in name else 'nested' if '/' in name else 'plain'))
+            want, searched = seq_spec(name, parent, cur, set(dirs))
+            clean = (not dirty) or nc
+            res.count('seq:clean' if clean else 'seq:stale')
+            if clean != m['clean']:
+                raise common.Infra(f'resolve.session and the monitor disagree on clean at look-up {k - 1}')
+            form = 'abs' if name.startswith('/') else 'rel'
+            sig = {'clause': 'resolve_first_existing', 'form': form, 'seq': case.get('tag')}
+            got = None
+            if op.get('py_dir') and op['py_dir'] not in dirs:
+                probed_missing.add(op['py_dir'])
+            if obs['err'] and 'ModuleNotFound' in obs['err']:
+                d = want.get('ok', '?').rsplit('/', 1)[0]
+                sg = {'clause': 'sys_path_has_pipeline_dir', 'seq': case.get('tag')}
+                if d in probed_missing:
+                    sg.update(site='add_sys_path', cause='known_dirs_remembers_missing_dir')
+                res.violation(case, f'look-up {k - 1}: {name} resolved to {want.get("ok")} but the step module next to it is not '
+                                    f'importable ({obs["msg"].splitlines()[0]})' +
+                                    (f'; {d} was handed to add_sys_path as py_dir before it existed' if d in probed_missing else ''),
+                              signature=sg, impl=impl)
+                continue
+            if obs['err'] is None and not obs['ran'] and want.get('ok', '').startswith('/B/'):
+                got = {'ok': want['ok']}          # pypyr's own built-in pipeline ran (it leaves no trail)
+            elif obs['err'] is None and len(obs['ran']) == 1:
+                got = {'ok': '/R/' + obs['ran'][0]}
+            elif obs['err'] == 'PipelineNotFoundError' and not obs['ran']:
+                got = {'err': 'PipelineNotFoundError', 'msg': obs['msg']}
+            else:
+                res.violation(case, f'look-up {k - 1} of {name} (parent {parent}, via {op["via"]}) ended unexpectedly: {obs}',
+                              signature=dict(sig, clause='resolve_first_existing'), impl=impl)
+                continue
+            if clean:
+                if 'ok' in want:
+                    if got.get('ok') != want['ok']:
+                        res.violation(case, f'look-up {k - 1}: {name} (parent {parent}, via {op["via"]}) must resolve to {want["ok"]} — '
+                                            f'as it does in a cold process — but after the earlier look-ups it gave {got}',
+                                      signature=sig, impl=impl)
+                else:
+                    if 'ok' in got:
+                        res.violation(case, f'look-up {k - 1}: {name} (parent {parent}, via {op["via"]}) exists nowhere in its search '
+                                            f'order {searched or "(absolute: that path only)"}, yet after the earlier look-ups {got["ok"]} ran',
+                                      signature=dict(sig, clause='resolve_absolute_only' if searched is None else 'resolve_first_existing'),
+                                      impl=impl)
+                    elif not judge_not_found(got['msg'], name, searched):
+                        res.violation(case, f'look-up {k - 1}: not-found error does not list the searched places {searched}: {got["msg"]!r}',
+                                      signature=dict(sig, clause='not_found_lists_searched'), impl=impl)
+            if obs.get('dups'):
+                res.violation(case, f'look-up {k - 1}: sys.path holds {obs["dups"]} more than once',
+                              signature=dict(sig, clause='sys_path_once'), impl=impl)
+            mm = {'ok': m['ok']} if 'ok' in m else {'err': 'PipelineNotFoundError', 'msg': m['err']}
+            # sys.path: the pype wrappers' directories are loads the model does not see
+            wrap_dirs = {'/R/' + o2['parent'][3:] for o2 in case['ops'] if o2['op'] == 'req' and o2['via'] == 'pype'}
+            ia = [p for p in obs.get('added', []) if p not in wrap_dirs or p in m['sysPath']]
+            ma = [p for p in m['sysPath'] if p != '/B' or p in ia]
+            if mm != got or (clean and sorted(ia) != sorted(ma)):
+                res.mismatch(case, {'lookup': k - 1, **mm, 'sysPath': ma}, {'lookup': k - 1, **got, 'sysPath': ia})
+                break
+
 # ---------------------------------------------------------------------------------------------
 # entry points
 # ---------------------------------------------------------------------------------------------
@@ -474,7 +814,12 @@ def run(env, res):
                 'donothing) x 5 name forms x 7 parents x Path/str, through get_pipeline_path; run: all depth-0 layouts, '
                 'depth-1 = 5 root placements x 4 child name forms x 13 pype option sets x every subset of the child\'s '
                 'candidate locations (thorough: all; quick: seeded slice), depth-2 random chains incl. custom loaders. '
-                'every case in a fresh subprocess with its own cwd. non-trivial = distinct (hops, options, layout)')
+                'seq: SEQUENCES of 2-10 look-ups in ONE process with warm caches (name forms plain, dir/name, absolute, '
+                'with +, with ..; parents none, dir, dir/sub, cwd; through new and re-used Pipeline objects, Pipeline.run, '
+                'pipelinerunner.run and a real pype step; with file-system changes, clear_all and no_cache in between): all ordered '
+                'pairs of requests whose first candidates coincide under path joining, one object run with changing parents, '
+                'all ordered pairs of requests on 3 layouts (thorough: all; quick: slice), random; each look-up compared with '
+                'its cold-process result. every case in a fresh subprocess with its own cwd. non-trivial = distinct (hops, options, layout)')
     workers = min(14, os.cpu_count() or 2)
     pcs = path_cases()
     chunks = [pcs[i::workers] for i in range(workers)]
@@ -485,9 +830,14 @@ def run(env, res):
         d1 = [c for c in d1 if not c['hops'][1]['pype']] + env.rng.sample([c for c in d1 if c['hops'][1]['pype']], 350)
     runs += d1
     runs += [random_depth2(env.rng) for _ in range(env.n(250, 2500))]
+    seqs = seq_cases_directed(env.rng, env.quick)
+    seqs += seq_cases_pairs(env.rng, env.n(3, 2), env.n(120, None))
+    seqs += [seq_case_random(env.rng) for _ in range(env.n(150, 1000))]
+    res.extra['sequences'] = len(seqs)
     with ThreadPoolExecutor(max_workers=workers) as pool:
         pfut = [pool.submit(run_path_chunk, ch, repo) for ch in chunks if ch]
         rfut = [pool.submit(run_run_case, c, repo) for c in runs]
+        sfut = [pool.submit(run_seq_case, c, repo) for c in seqs]
         for fu in pfut:
             results, pypyr_file = fu.result()
             if not str(pypyr_file).startswith(str(repo)):
@@ -496,6 +846,8 @@ def run(env, res):
                 judge_path_case(env, res, c, files, dirs, impl)
         for fu in rfut:
             judge_run_case(env, res, *fu.result())
+        for fu in sfut:
+            judge_seq_case(env, res, *fu.result())
 
 
 def replay(env, res, payload):
@@ -507,6 +859,10 @@ def replay(env, res, payload):
         for c, files, dirs, impl in results:
             judge_path_case(env, res, c, files, dirs, impl)
             res.extra['replayed'] = impl
+    elif case.get('kind') == 'seq':
+        c, dirs, impl = run_seq_case(case, common.REPO)
+        judge_seq_case(env, res, c, dirs, impl)
+        res.extra['replayed'] = impl
     else:
         c, files, dirs, impl = run_run_case(case, common.REPO)
         judge_run_case(env, res, c, files, dirs, impl)
